@@ -114,8 +114,11 @@ def detect_threshold(data, nsigma, *, background=None, error=None, mask=None,
         raise ValueError('If input error is 2D, then it must have the same '
                          'shape as the input data.')
 
+    # (computed in float: an integer error array times an integer nsigma
+    # would wrap around in the integer dtype)
     threshold = (np.broadcast_to(background, data.shape)
-                 + np.broadcast_to(error * nsigma, data.shape))
+                 + np.broadcast_to(np.multiply(error, nsigma, dtype=float),
+                                   data.shape))
 
     if unit:
         threshold <<= unit
